@@ -6,8 +6,8 @@
    S = ods_spec_table rows = (range_of (values of (expand rows)), range_of (formulas of …)):
        the plain expansion of every number-rows-repeated / number-columns-repeated count and
        every covered cell, then the tight bounding rectangle of the non-default cells.
-   Guards: counts_pos (ODF: repeat counts are positive) and extent_ok (row and column counts
-   <= 2^32, sheet cell count <= usize::MAX; a 1048576 x 16384 sheet is far inside). *)
+   Guards: counts_pos (ODF: repeat counts are positive) and extent_ok (row count <= 2^32 —
+   exactly what read_table accepts since the row limit —, column count <= 2^32, sheet cell count <= usize::MAX; a 1048576 x 16384 sheet is far inside). *)
 From Calamine Require Import Prelude Range Range_spec OdsGrid OdsGrid_proofs.
 Open Scope N_scope.
 
@@ -135,6 +135,27 @@ Theorem C04_typing_canonical :
     = (tv_data t, formula).
 Proof. exact typing_canonical. Qed.
 
+(* totality (for C06): for EVERY list of row elements — zero counts, huge counts, any cells —
+   that a machine can hold (phys_ok: at most isize::MAX row elements, and row elements x widest
+   row <= usize::MAX, the bound of get_range's `cells_len` product), read_table returns Ok or
+   Err, never a panic.  No well-formedness hypothesis. *)
+Theorem C04_no_panic_read_table :
+  forall rows : list (row_elem data str),
+    phys_ok rows = true -> ods_read_table rows <> Panic.
+Proof. exact ods_read_table_no_panic. Qed.
+
+(* the row limit of read_table: more than 2^32 announced rows is an error (not a panic, not a
+   truncated position) *)
+Theorem C04_row_limit :
+  forall rows : list (row_elem data str),
+    TWO32 < total_rows rows -> exists e, ods_read_table rows = Err e.
+Proof. exact ods_read_table_row_limit. Qed.
+
+Example C04_no_panic_nonvacuous :
+  phys_ok ex_huge = true /\ (exists e, ods_read_table ex_huge = Err e) /\
+  phys_ok ex_zero = true /\ (exists r, ods_read_table ex_zero = Ok r).
+Proof. exact no_panic_nonvacuous. Qed.
+
 (* the limits of a real sheet are inside the guard *)
 Theorem C04_sheet_limits_inside_guard :
   forall (V F : Type) (rows : list (row_elem V F)),
@@ -175,3 +196,5 @@ Print Assumptions C04_empties_inert.
 Print Assumptions C04_empties_shift_rows.
 Print Assumptions C04_typing_canonical.
 Print Assumptions C04_sheet_limits_inside_guard.
+Print Assumptions C04_no_panic_read_table.
+Print Assumptions C04_row_limit.
